@@ -903,15 +903,20 @@ impl Indexable for ast::SimpleValue {
             }
             ast::SimpleValue::BangOperator(bang_operator) => bang_operator.index(ctx),
             ast::SimpleValue::CondOperator(cond_operator) => {
+                // the operator has the type of its clause values; the first one that is known is taken
+                let mut typ = None;
                 for clause in cond_operator.clauses() {
                     if let Some(condition) = clause.condition() {
                         condition.index(ctx);
                     }
                     if let Some(value) = clause.value() {
-                        value.index(ctx);
+                        let value_typ = value.index(ctx);
+                        if typ.is_none() {
+                            typ = value_typ;
+                        }
                     }
                 }
-                None
+                typ
             }
         }
     }
